@@ -1131,8 +1131,20 @@ def run_c09(ctx):
     states = api_histories(ctx, "API_intended", pairs, ALL_OPS, 2, rules)
     cases = history_cases(ctx, states, [p for pr in pairs for p in pr])
     if q and len(cases) > 5000:
-        ctx.notes.append("quick tier replays a seeded sample of 5000 of the %d enumerated length-2 histories" % len(cases))
-        cases = ctx.rng.sample(cases, 5000)
+        # stratified: every ordered pair of operations (on the same and on different handles) that TLC enumerated is replayed at least
+        # a few times; the rest of the budget is a seeded sample
+        ctx.notes.append("quick tier replays a stratified seeded sample of about 6000 of the %d enumerated length-2 histories (every ordered pair of operations present)" % len(cases))
+        groups = {}
+        for c in cases:
+            key = tuple((x["op"], x["h"] == c["calls"][0]["h"]) for x in c["calls"])
+            groups.setdefault(key, []).append(c)
+        picked, rest = [], []
+        for key in sorted(groups):
+            g = groups[key]
+            ctx.rng.shuffle(g)
+            picked += g[:4]; rest += g[4:]
+        cases = picked + ctx.rng.sample(rest, max(0, min(len(rest), 6000 - len(picked))))
+        ctx.region("ordered_operation_pairs", len(groups))
     # length-3 histories over a few operations (read - call that triggers the known deviation - read again)
     st3 = api_histories(ctx, "API_len3", [(cat["M1"], cat["G1"])], ["flags", "assume", "evaluate_all", "reduce"], 3, rules[:1], dictvals=((0, 0), (1, 1)))
     c3 = history_cases(ctx, st3, [cat["M1"], cat["G1"]])
